@@ -463,6 +463,26 @@ def native(seed=0):
                 if lo.solve_step != step or not np.array_equal(lo.tdgl_data.psi, raw):
                     bad.append(dict(what="Solution.from_hdf5(solve_step=k) does not hold the data of step k", step=step, loaded_step=lo.solve_step))
                     break
+        # ONE loaded solution moved from frame to frame (solution.solve_step = k) with a time-dependent applied potential and epsilon: after every move
+        # all its raw data - the per-frame potential and epsilon included - are the datasets stored for the frame it is at
+        from tdgl.sources import ConstantField, LinearRamp
+
+        def eps_t(r, *, t):
+            return 1.0 - 0.5 * t
+        ramp = LinearRamp(tmin=0.0, tmax=0.4) * ConstantField(0.4, field_units="mT", length_units="um")
+        opts = tdgl.SolverOptions(solve_time=0.4, save_every=10, adaptive=False, dt_init=1e-2, field_units="mT", output_file=os.path.join(td, "ramp.h5"))
+        sol_r = tdgl.solve(dev, opts, applied_vector_potential=ramp, disorder_epsilon=eps_t)
+        moved = tdgl.Solution.from_hdf5(sol_r.path)
+        with h5py.File(sol_r.path, "r") as f:
+            for step in (moved.data_range[1], 1, moved.data_range[1] - 1, 0, 2):
+                moved.solve_step = step
+                n += 1
+                g = f["data"][str(step)]
+                off = [k_ for k_ in ("psi", "mu", "supercurrent", "normal_current", "induced_vector_potential", "applied_vector_potential", "epsilon")
+                       if k_ in g and not np.array_equal(getattr(moved.tdgl_data, k_), np.array(g[k_]))]
+                if off:
+                    bad.append(dict(what="a loaded solution moved to another frame (solution.solve_step = k) holds data that are not the datasets stored for that frame", frame=step, fields=off))
+                    break
     logging.disable(logging.NOTSET)
     return bad, n
 
